@@ -5,7 +5,14 @@
 #include <gudhi/zigzag_persistence.h>
 #include <gudhi/filtered_zigzag_persistence.h>
 #include <list>
+#include <set>
 #include <limits>
+#include <type_traits>
+#include <cerrno>
+#include <csignal>
+#include <poll.h>
+#include <sys/wait.h>
+#include <unistd.h>
 #include "common/vh.h"
 #include "oracle/zp_reduce.h"
 #include "c07_zigzag/zigzag_ranks.h"
@@ -46,8 +53,14 @@ struct Scenario {
   std::vector<zzo::Interval> iv;     // the oracle's answer for the whole sequence
   std::vector<double> f;             // filtration value supplied with operation i
   bool decreasing = false;
-  std::vector<long long> key_at;     // cell key used by operation i (insertion: new key; removal: key of the cell)
+  std::vector<long long> key_at;     // cell key used by operation i (insertion: new key; removal: key of the cell; identity: a key
+                                     // that no cell of the sequence ever has)
   unsigned prealloc = 0;
+  double scale = 1;                  // 8 when Filtration_value is integral (values even integers, thresholds odd integers)
+  std::string vclass;                // "" : ordinary finite values whose first one is not special; otherwise the class of the value
+                                     // sequence (part of the signatures of the filtered classes)
+  bool canary = false;               // the first supplied value is +inf (floating types) / 0 (integral types): see Exec::canary_fs
+  int stride = 1;                    // the storage class is queried after every stride-th operation (and after the last one)
   int n() const { return (int)ops.size(); }
   const char* opname(int i) const { return ops[i].kind == 0 ? "insert" : ops[i].kind == 1 ? "remove" : "identity"; }
   std::string sig(int i) const { return std::string("op=") + opname(i) + ",arrow=" + arrow_class(ops, iv, i); }
@@ -55,8 +68,14 @@ struct Scenario {
 };
 
 // keys and values for the filtered front-ends
-inline void dress(vh::Rng& r, Scenario& S, bool key64) {
+//   ordinary values: monotone dyadic (multiples of 1/4, times 8 when Filtration_value is integral), plateaus, 1/5 decreasing;
+//   integral Filtration_value: 1/3 of the sequences are translated so that the first supplied value is 0;
+//   gp.edge_values (floating types): the sequence starts at / stays at / ends at +infinity or -infinity (still monotone);
+//   gp.edge_values (integral types): the sequence starts at / stays at / ends at 0
+template <class FV>
+inline void dress(vh::Rng& r, Scenario& S, bool key64, const GenParams& gp) {
   const int n = S.n();
+  const bool integral = std::is_integral<FV>::value;
   S.decreasing = r.chance(1, 5);
   const double steps[] = {0, 0, 0, 0.25, 0.25, 0.5, 1, 2.75};
   double v = (double)r.range(-8, 12) / 4;
@@ -67,6 +86,41 @@ inline void dress(vh::Rng& r, Scenario& S, bool key64) {
     if (plateau && r.below(3) < plateau) st = 0;
     v += S.decreasing ? -st : st;
     S.f[i] = v;
+  }
+  int i0 = 0;   // the first operation that supplies a value
+  while (i0 < n && S.ops[i0].kind == 2) ++i0;
+  if (i0 == n) i0 = 0;
+  if (integral) {
+    S.scale = 8;
+    for (auto& x : S.f) x *= 8;
+    const unsigned m = gp.edge_values ? (unsigned)r.pick(std::vector<int>{1, 1, 2, 3}) : (r.chance(1, 3) ? 1u : 0u);
+    if (m == 1) { double t = S.f[i0]; for (auto& x : S.f) x -= t; }                  // starts at 0
+    if (m == 2) { for (auto& x : S.f) x = 0; S.decreasing = false; }                // stays at 0
+    if (m == 3) { double t = S.f[n - 1]; for (auto& x : S.f) x -= t; }              // arrives at 0
+    if (S.f[i0] == 0) { S.vclass = std::string("first_value=0,integral_values") + (m == 2 ? ",constant" : ""); S.canary = true; }
+    else if (m == 3) S.vclass = "values=to_0";
+  } else if (gp.edge_values) {
+    const double inf = std::numeric_limits<double>::infinity();
+    const unsigned m = (unsigned)r.pick(std::vector<int>{0, 0, 0, 1, 1, 2, 2, 3, 4, 5});
+    const int head = std::min(n, i0 + 1 + (int)r.below((uint64_t)std::max(1, n / 2)));   // operations 0..head-1 (covers i0)
+    const int tail = 1 + (int)r.below((uint64_t)std::max(1, n / 3));                       // the last `tail` operations
+    switch (m) {
+      case 0: if (!S.decreasing) { for (auto& x : S.f) x = -x; S.decreasing = true; }
+              for (int i = 0; i < head; ++i) S.f[i] = inf;
+              S.vclass = "first_value=+inf"; break;
+      case 1: for (auto& x : S.f) x = inf; S.decreasing = false; S.vclass = "first_value=+inf,constant"; break;
+      case 2: if (S.decreasing) { for (auto& x : S.f) x = -x; S.decreasing = false; }
+              for (int i = std::max(0, n - tail); i < n; ++i) S.f[i] = inf;
+              S.vclass = S.f[i0] == inf ? "first_value=+inf,constant" : "values=to+inf"; break;
+      case 3: if (S.decreasing) { for (auto& x : S.f) x = -x; S.decreasing = false; }
+              for (int i = 0; i < head; ++i) S.f[i] = -inf;
+              S.vclass = "values=from-inf"; break;
+      case 4: for (auto& x : S.f) x = -inf; S.decreasing = false; S.vclass = "values=all-inf"; break;
+      default: if (!S.decreasing) { for (auto& x : S.f) x = -x; S.decreasing = true; }
+              for (int i = std::max(0, n - tail); i < n; ++i) S.f[i] = -inf;
+              S.vclass = "values=to-inf"; break;
+    }
+    S.canary = (S.f[i0] == inf);
   }
   // keys: 0 small permuted (one per universe cell), 1 sparse (one per universe cell), 2 fresh key at every insertion
   const unsigned mode = (unsigned)r.below(3);
@@ -87,14 +141,16 @@ inline void dress(vh::Rng& r, Scenario& S, bool key64) {
     if (S.ops[i].kind == 0) { cur[S.ops[i].cell] = (mode == 2) ? fresh() : cell_key[S.ops[i].cell]; S.key_at[i] = cur[S.ops[i].cell]; }
     else if (S.ops[i].kind == 1) S.key_at[i] = cur[S.ops[i].cell];
   }
+  for (int i = 0; i < n; ++i) if (S.ops[i].kind == 2) S.key_at[i] = fresh();   // drawn last: never the key of a cell
   S.prealloc = (unsigned)r.pick(std::vector<int>{0, 0, 1, 7, 28, 100});
 }
 
 inline void log_scenario(vh::Case& c, const Scenario& S) {
-  c.log("universe=" + vh::str(S.ui) + " (" + S.U->kind + ") prealloc=" + vh::str(S.prealloc) + " ops: " + show_ops(*S.U, S.ops));
+  c.log("universe=" + vh::str(S.ui) + " (" + S.U->kind + ") prealloc=" + vh::str(S.prealloc) + " value_class=" + (S.vclass.empty() ? "ordinary" : S.vclass) +
+        " ops: " + show_ops(*S.U, S.ops));
   std::string s = "values:"; for (double x : S.f) s += " " + vh::str(x);
   c.log(s);
-  s = "keys:"; for (size_t i = 0; i < S.key_at.size(); ++i) s += " " + (S.ops[i].kind == 2 ? std::string("-") : vh::str(S.key_at[i]));
+  s = "keys:"; for (size_t i = 0; i < S.key_at.size(); ++i) s += " " + (S.ops[i].kind == 2 ? "(" + vh::str(S.key_at[i]) + ")" : vh::str(S.key_at[i]));
   c.log(s);
   c.log("oracle: " + zzo::show(S.iv));
 }
@@ -138,6 +194,39 @@ struct Exec {
   typedef typename Opt::Internal_key Index;
   typedef typename Opt::Cell_key Key;
   typedef typename Opt::Dimension Dim;
+  typedef typename Opt::Filtration_value FV;
+
+  static Key mk(long long k) {
+    if constexpr (std::is_same<Key, std::string>::value) return "cell#" + std::to_string(k);
+    else return (Key)k;
+  }
+  // the death of an open bar as the storage class writes it (Persistence_interval::inf: +infinity, or -1 for integral types)
+  static double death_value(FV x) {
+    if (!std::numeric_limits<FV>::has_infinity && x == FS::Filtration_value_interval::inf) return kInf;
+    return (double)x;
+  }
+  // the boundary as a std::vector / std::list / std::set / braced list ("Range type needing begin and end"; no order is documented)
+  template <class Z>
+  static Index insert_as(Z& z, unsigned how, vh::Case& c, const Key& k, const std::vector<Key>& bd, Dim d, FV f) {
+    switch (how & 3) {
+      case 1: { c.count("bd.list"); std::list<Key> l(bd.begin(), bd.end()); return z.insert_cell(k, l, d, f); }
+      case 2: { c.count("bd.set"); std::set<Key> q(bd.begin(), bd.end()); return z.insert_cell(k, q, d, f); }
+      case 3:
+        if (bd.size() <= 6) c.count("bd.init_list");
+        switch (bd.size()) {
+          case 0: return z.insert_cell(k, {}, d, f);
+          case 1: return z.insert_cell(k, {bd[0]}, d, f);
+          case 2: return z.insert_cell(k, {bd[0], bd[1]}, d, f);
+          case 3: return z.insert_cell(k, {bd[0], bd[1], bd[2]}, d, f);
+          case 4: return z.insert_cell(k, {bd[0], bd[1], bd[2], bd[3]}, d, f);
+          case 5: return z.insert_cell(k, {bd[0], bd[1], bd[2], bd[3], bd[4]}, d, f);
+          case 6: return z.insert_cell(k, {bd[0], bd[1], bd[2], bd[3], bd[4], bd[5]}, d, f);
+          default: break;
+        }
+        [[fallthrough]];
+      default: c.count("bd.vector"); return z.insert_cell(k, bd, d, f);
+    }
+  }
 
   // ---------------------------------------------------------------- Zigzag_persistence
   static bool run_zp(vh::Case& c, const Scenario& S, bool light = false) {
@@ -177,9 +266,10 @@ struct Exec {
   // ---------------------------------------------------------------- Filtered_zigzag_persistence (streaming, values)
   static bool run_fz(vh::Case& c, const Scenario& S, vh::Rng& r) {
     Bars now;
-    FZ fz([&](Dim d, double b, double de) { now.push_back(Bar{(int)d, b, de}); }, S.prealloc);
+    FZ fz([&](Dim d, FV b, FV de) { now.push_back(Bar{(int)d, (double)b, (double)de}); }, S.prealloc);
     c.log("run Filtered_zigzag_persistence");
-    std::vector<Key> key_of(S.U->cells.size(), 0);
+    std::vector<Key> key_of(S.U->cells.size(), Key());
+    const std::string vsig = S.vclass.empty() ? std::string() : "," + S.vclass;
     for (int i = 0; i < S.n(); ++i) {
       const Op& o = S.ops[i];
       now.clear();
@@ -188,10 +278,10 @@ struct Exec {
         std::vector<Key> bd;
         for (size_t f = 0; f < S.U->cells.size(); ++f) if (S.U->cells[o.cell].bdry >> f & 1) bd.push_back(key_of[f]);
         r.shuffle(bd);                      // no order is documented for the filtered classes
-        key_of[o.cell] = (Key)S.key_at[i];
-        ret = fz.insert_cell((Key)S.key_at[i], bd, (Dim)S.U->cells[o.cell].dim, S.f[i]);
+        key_of[o.cell] = mk(S.key_at[i]);
+        ret = insert_as(fz, (unsigned)(i + S.n()), c, mk(S.key_at[i]), bd, (Dim)S.U->cells[o.cell].dim, (FV)S.f[i]);
       } else if (o.kind == 1) {
-        ret = fz.remove_cell((Key)S.key_at[i], S.f[i]);
+        ret = fz.remove_cell(mk(S.key_at[i]), (FV)S.f[i]);
       } else {
         ret = fz.apply_identity();
       }
@@ -204,14 +294,83 @@ struct Exec {
         c.count("fz.positive_length");
       }
       normalise(S, now); std::sort(want.begin(), want.end());
-      if (!compare(c, "fz.streamed", S.sig(i) + (S.decreasing ? ",decreasing" : ""), now, want, at)) return false;
+      if (!compare(c, "fz.streamed", S.sig(i) + (S.decreasing ? ",decreasing" : "") + vsig, now, want, at)) return false;
       Bars open, wopen;
-      fz.get_current_infinite_intervals([&](Dim d, double b) { open.push_back(Bar{(int)d, b, kInf}); });
+      fz.get_current_infinite_intervals([&](Dim d, FV b) { open.push_back(Bar{(int)d, (double)b, kInf}); });
       for (auto& x : want_open_at(S, i, -1)) wopen.push_back(to_values(S, x));
       std::sort(open.begin(), open.end()); std::sort(wopen.begin(), wopen.end());
-      if (!compare(c, "fz.open", S.sig(i), open, wopen, at)) return false;
+      if (!compare(c, "fz.open", S.sig(i) + vsig, open, wopen, at)) return false;
     }
     return true;
+  }
+
+  // ---------------------------------------------------------------- canary for the storage class
+  // Value sequences whose first value is +infinity (floating types) or 0 (integral types) are first fed to a CHILD process that
+  // performs the same operations and the same kinds of queries (value of every index of the index diagram, default value
+  // diagram) without comparing anything.  When the child is killed (sanitizer report, signal) the case is reported as one
+  // violation whose signature names the value class, instead of a process crash that only names the faulting frame; when the
+  // child survives, run_fs repeats everything in this process and compares.  Returns "" or how the child died.
+  static std::string canary_fs(const Scenario& S, int dimmax) {
+    int pfd[2];
+    if (::pipe(pfd) != 0) return "";
+    fflush(stdout); fflush(stderr);
+    pid_t pid = ::fork();
+    if (pid < 0) { ::close(pfd[0]); ::close(pfd[1]); return ""; }
+    if (pid == 0) {
+      vh::G().cur_case = -1;   // the fatal-error hook of vh.h must not write a history record for the child
+      ::close(pfd[0]); ::dup2(pfd[1], 2);
+      {
+        FS fs(S.prealloc, dimmax);
+        std::vector<Key> key_of(S.U->cells.size(), Key());
+        double sink = 0;
+        for (int i = 0; i < S.n(); ++i) {
+          const Op& o = S.ops[i];
+          if (o.kind == 0) {
+            std::vector<Key> bd;
+            for (size_t f = 0; f < S.U->cells.size(); ++f) if (S.U->cells[o.cell].bdry >> f & 1) bd.push_back(key_of[f]);
+            key_of[o.cell] = mk(S.key_at[i]);
+            fs.insert_cell(mk(S.key_at[i]), bd, (Dim)S.U->cells[o.cell].dim, (FV)S.f[i]);
+          } else if (o.kind == 1) fs.remove_cell(mk(S.key_at[i]), (FV)S.f[i]);
+          else fs.apply_identity();
+          for (auto& b : fs.get_index_persistence_diagram())
+            sink += (double)fs.get_filtration_value_from_index(b.birth) + (double)fs.get_filtration_value_from_index(b.death);
+          for (auto& b : fs.get_persistence_diagram()) sink += (double)b.birth;
+        }
+        if (sink == 12345.678) ::_exit(3);   // (keeps the queries alive)
+      }
+      ::_exit(0);
+    }
+    ::close(pfd[1]);
+    std::string err; char buf[4096];
+    bool timed_out = false;
+    for (;;) {
+      struct pollfd pf; pf.fd = pfd[0]; pf.events = POLLIN; pf.revents = 0;
+      int pr = ::poll(&pf, 1, 30000);
+      if (pr == 0) { timed_out = true; ::kill(pid, SIGKILL); break; }
+      if (pr < 0) { if (errno == EINTR) continue; break; }
+      ssize_t k = ::read(pfd[0], buf, sizeof buf);
+      if (k <= 0) break;
+      if (err.size() < 16384) err.append(buf, (size_t)k);
+    }
+    ::close(pfd[0]);
+    int st = 0;
+    while (::waitpid(pid, &st, 0) < 0 && errno == EINTR) {}
+    if (timed_out) return "";                                  // inconclusive: run_fs decides in this process
+    if (WIFEXITED(st) && WEXITSTATUS(st) == 0) return "";
+    std::string what = WIFSIGNALED(st) ? "killed by signal " + vh::str(WTERMSIG(st)) : "exit status " + vh::str(WEXITSTATUS(st));
+    for (const char* key : {"ERROR: AddressSanitizer: ", "runtime error: ", "Assertion "}) {
+      size_t at = err.find(key);
+      if (at == std::string::npos) continue;
+      size_t e = err.find('\n', at);
+      what += "; " + err.substr(at, std::min<size_t>(e == std::string::npos ? 200 : e - at, 200));
+      size_t fr = err.find("filtered_zigzag_persistence.h", at);
+      if (fr != std::string::npos) {
+        size_t b = err.rfind('\n', fr), e2 = err.find('\n', fr);
+        what += "; " + err.substr(b == std::string::npos ? 0 : b + 1, std::min<size_t>((e2 == std::string::npos ? err.size() : e2) - (b == std::string::npos ? 0 : b + 1), 300));
+      }
+      break;
+    }
+    return what;
   }
 
   // ---------------------------------------------------------------- Filtered_zigzag_persistence_with_storage
@@ -219,8 +378,17 @@ struct Exec {
     FS fs(S.prealloc, dimmax);
     c.log("run Filtered_zigzag_persistence_with_storage ignoreCyclesAboveDim=" + vh::str(dimmax));
     c.count(dimmax < 0 ? "fs.dimmax.none" : "fs.dimmax." + vh::str(dimmax));
-    std::vector<Key> key_of(S.U->cells.size(), 0);
-    const std::string dsig = dimmax < 0 ? ",all_dims" : ",ignored_dims";
+    std::vector<Key> key_of(S.U->cells.size(), Key());
+    const std::string dsig = (dimmax < 0 ? ",all_dims" : ",ignored_dims") + (S.vclass.empty() ? std::string() : "," + S.vclass);
+    if (S.canary) {
+      c.count("fs.canary");
+      const std::string why = canary_fs(S, dimmax);
+      if (!why.empty()) {
+        c.violation("fs.value_from_index", "lookup_dies" + dsig, "in a child process that feeds the same operations and asks for the value of every index of the index "
+                    "diagram and for get_persistence_diagram() after each of them: " + why);
+        return false;
+      }
+    }
     for (int i = 0; i < S.n(); ++i) {
       const Op& o = S.ops[i];
       Index ret;
@@ -228,18 +396,23 @@ struct Exec {
         std::vector<Key> bd;
         for (size_t f = 0; f < S.U->cells.size(); ++f) if (S.U->cells[o.cell].bdry >> f & 1) bd.push_back(key_of[f]);
         r.shuffle(bd);
-        key_of[o.cell] = (Key)S.key_at[i];
+        key_of[o.cell] = mk(S.key_at[i]);
         if (dimmax >= 0 && S.U->cells[o.cell].dim > dimmax) c.count("fs.skipped_insertion");
-        ret = fs.insert_cell((Key)S.key_at[i], bd, (Dim)S.U->cells[o.cell].dim, S.f[i]);
+        ret = insert_as(fs, (unsigned)(i + S.n() + 1), c, mk(S.key_at[i]), bd, (Dim)S.U->cells[o.cell].dim, (FV)S.f[i]);
       } else if (o.kind == 1) {
         if (dimmax >= 0 && S.U->cells[o.cell].dim > dimmax) c.count("fs.skipped_removal");
-        ret = fs.remove_cell((Key)S.key_at[i], S.f[i]);
+        ret = fs.remove_cell(mk(S.key_at[i]), (FV)S.f[i]);
+      } else if ((i + S.n()) % 2) {
+        // documented: removing a cell that is not in the complex "just increases the operation count by one"
+        c.count(dimmax < 0 ? "fs.remove_unknown_key.all_dims" : "fs.remove_unknown_key.ignored_dims");
+        ret = fs.remove_cell(mk(S.key_at[i]), (FV)S.f[i]);
       } else {
         ret = fs.apply_identity();
       }
       const std::string at = "step " + vh::str(i) + " (" + S.opname(i) + ")";
       const std::string sg = S.sig(i) + dsig;
       if (ret != (Index)i) { c.violation("fs.operation_number", sg, at + " returned " + vh::str(ret)); return false; }
+      if (i % S.stride != 0 && i != S.n() - 1) continue;
       // index diagram
       Bars idx;
       for (auto& b : fs.get_index_persistence_diagram()) idx.push_back(Bar{(int)b.dim, (double)b.birth, (double)b.death});
@@ -249,7 +422,7 @@ struct Exec {
       // value of every index that appears in the index diagram (documented use of get_filtration_value_from_index)
       for (auto& b : idx) {
         for (double ix : {b.b, b.d}) {
-          double got = fs.get_filtration_value_from_index((Index)ix);
+          double got = (double)fs.get_filtration_value_from_index((Index)ix);
           c.count("cmp.fs.value_from_index");
           if (got != S.f[(int)ix]) {
             c.violation("fs.value_from_index", std::string("op_at_index=") + S.opname((int)ix) + dsig,
@@ -260,17 +433,17 @@ struct Exec {
       }
       // value diagram: random threshold (never equal to a length: lengths are multiples of 1/4, thresholds odd multiples of 1/8)
       const double thr[] = {0, 0, 0.125, 0.375, 0.625, 1.125, 2.875};
-      double sh = thr[r.below(7)];
+      double sh = thr[r.below(7)] * S.scale;
       bool inf = !r.chance(1, 4);
       bool dflt = (i == S.n() - 1) || r.chance(1, 6);
       if (dflt) { sh = 0; inf = true; }
-      auto diag = dflt ? fs.get_persistence_diagram() : fs.get_persistence_diagram(sh, inf);
+      auto diag = dflt ? fs.get_persistence_diagram() : fs.get_persistence_diagram((FV)sh, inf);
       Bars got, want;
-      for (auto& b : diag) got.push_back(Bar{(int)b.dim, (double)b.birth, (double)b.death});
+      for (auto& b : diag) got.push_back(Bar{(int)b.dim, (double)b.birth, death_value(b.death)});
       for (auto& x : widx) {
         Bar y = to_values(S, x);
+        if (S.f[(int)x.d] == S.f[(int)x.b]) { c.count("fs.zero_length_dropped"); continue; }   // (also both +inf / both -inf)
         double len = std::fabs(S.f[(int)x.d] - S.f[(int)x.b]);
-        if (len == 0) { c.count("fs.zero_length_dropped"); continue; }
         if (!(len > sh)) { c.count("fs.short_dropped"); continue; }
         want.push_back(y);
         c.count("fs.bar_kept");
@@ -290,11 +463,12 @@ struct Exec {
   static void random_case(vh::Case& c, const GenParams& gp, bool key64) {
     vh::Rng& r = c.rng;
     Scenario S;
-    S.ui = gp.churn ? pick_churn_universe(r) : pick_universe(r);
+    S.ui = gp.wide ? kWideUniverse : gp.churn ? pick_churn_universe(r) : pick_universe(r);
     S.U = &universes()[S.ui];
     S.ops = gen_history(r, *S.U, gp);
-    zzo::Result res = zzo::zigzag_intervals(S.U->cells, S.ops);
-    dress(r, S, key64);
+    zzo::Result res = zzo::zigzag_intervals(S.U->cells, S.ops, S.ops.size() < 200);
+    dress<FV>(r, S, key64, gp);
+    if (S.n() >= 200) S.stride = 7;
     S.iv = res.intervals;
     log_scenario(c, S);
     if (!res.ok) { c.violation("oracle.inconsistent", "zigzag_ranks", res.why); return; }
@@ -310,6 +484,24 @@ struct Exec {
     c.count("universe." + S.U->kind);
     if (nrem >= 3) c.count("seq.removals_ge3");
     if (S.decreasing) c.count("seq.decreasing_values");
+    if (!S.vclass.empty()) c.count("seq.values." + S.vclass);
+    if (S.n() >= 300) c.count("seq.ops_ge300");
+    {
+      int b1 = 0; size_t cells = 0;
+      for (auto& b : res.betti) if (b.size() > 1) b1 = std::max(b1, b[1]);
+      for (Chain K : res.complexes) cells = std::max<size_t>(cells, (size_t)__builtin_popcountll(K));
+      if (b1 >= 16) c.count("seq.b1_ge16");
+      if (b1 >= 24) c.count("seq.b1_ge24");
+      if (gp.periodic) {   // growth and shrinking periods really happened: the complex was large and small again several times
+        int swings = 0; bool up = false;
+        for (Chain K : res.complexes) {
+          size_t k = (size_t)__builtin_popcountll(K);
+          if (!up && 3 * k >= 2 * cells) { up = true; ++swings; }
+          if (up && 3 * k <= cells) up = false;
+        }
+        if (swings >= 3) c.count("seq.swings_ge3");
+      }
+    }
     int maxd = 0;
     for (auto& I : S.iv) { c.count("interval.dim" + vh::str(I.dim)); c.count(I.death < 0 ? "interval.open" : "interval.finite"); maxd = std::max(maxd, I.dim);
       if (I.death >= 0 && I.death - I.birth >= 5) c.count("interval.long_finite"); }
